@@ -45,7 +45,7 @@ mutual
     | [] => true
     | c :: cs => okC c && okCs cs
   def okU : Union → Bool
-    | .mk us => okCs us
+    | .mk us => !us.isEmpty && okCs us  -- `retree.parse` never returns a union without uniates
 end
 
 def isStartTerm : Term → Bool
